@@ -130,6 +130,7 @@ def summarize(args, prop, results, reg, known, kmap, seed, wall, timeout_ms):
             continue
         ob = cs["sat"][0]
         violations.append(dict(name=cname, clause=ob["clause"], unit=cname.rsplit("/", 1)[0], witness=ob.get("witness"),
+                               harness=ob.get("replay_harness"),
                                model=ob.get("model"), meta=ob["meta"], smt2=ob.get("smt2"), kind=ob["kind"]))
     # output
     for cname, kfs in known_hits:
